@@ -125,6 +125,19 @@ func execC10(seg []Ev) []Ev {
 		e["code"], e["eval"], e["out"] = "", "none", []int{}
 		e["names"], e["auto"] = []any{}, []any{}
 		oc, det := guarded(func() { err = t.SetTemplate(text) })
+		// the same text set once more on the same object gets the same verdict (whatever the first attempt left behind)
+		{
+			var err2 error
+			oc2, _ := guarded(func() { err2 = t.SetTemplate(text) })
+			switch {
+			case oc2 != "ok":
+				e["set2"] = "panic"
+			case err2 != nil:
+				e["set2"] = "error"
+			default:
+				e["set2"] = "ok"
+			}
+		}
 		switch {
 		case oc != "ok":
 			e["set"] = "panic"
